@@ -4,7 +4,8 @@
 (*      [tid, kind, cv, ty ("nat"|"int"|"real"|"bool"), mode, x, ax (the abstract vector x was built from), *)
 (*       conds (propositions of the supplied conditions),                                                   *)
 (*       pt  = [o |-> "ok"|"conv"|"other", exc, th |-> [h, c]]   cv.get_proof_term(x).th                     *)
-(*       ev  = the same for cv.eval(x);  chk = the same for theory.check_proof(pt.export());                *)
+(*       ev  = the same for cv.eval(x) (o = "none" when the class has no fast evaluation of its own: then     *)
+(*       eval IS get_proof_term(x).th);  chk = the same for theory.check_proof(pt.export());                 *)
 (*       idem = the same for cv.get_proof_term(rhs)   (normalisers only)]                                   *)
 (*   kind "orbit": [tid, kind, cv, ty, mode, ms |-> sequence of [x, rhs]]  the results on one orbit          *)
 (* Clauses (names of the property's demands that FAIL on the event):                                        *)
@@ -54,7 +55,7 @@ ConvClauses(e) ==
           (IF IsEquation(e.pt.th) THEN (IF LhsOf(e.pt.th) = e.x THEN {} ELSE {"LhsIsInput"}) ELSE {"IsEquation"})
           \cup (IF SeqSet(e.pt.th.h) \subseteq SeqSet(e.conds) THEN {} ELSE {"HypsFromConds"})
           \cup (IF e.chk.o = "ok" /\ SameSeq(e.chk.th, e.pt.th) THEN {} ELSE {"Checked"})
-          \cup (IF e.ev.o = "ok" /\ SameSeq(e.ev.th, e.pt.th) THEN {} ELSE {"EvalSame"})
+          \cup (IF e.ev.o = "none" \/ (e.ev.o = "ok" /\ SameSeq(e.ev.th, e.pt.th)) THEN {} ELSE {"EvalSame"})
           \cup (IF ValueVerdict(e) = 2 THEN {"ValuePreserved"} ELSE {})
           \cup (IF e.kind = "norm" /\ e.cv \in CanonCvs(e.mode, e.ty) /\ IsEquation(e.pt.th) /\ e.idem.o # "conv" /\ ~IdemSame(e) THEN {"Idempotent"} ELSE {})
         ELSE {})
